@@ -94,3 +94,72 @@ func verifSwapServerBody() {
 	verifAssert(verifHeldLocks() == 0, "no mutex left held")
 	verifReach("end")
 }
+
+// verifClientUpgradeBody is the body shared by C07_client and C16_G9_eio_client_upgrade (see there).
+func verifClientUpgradeBody() {
+	old := &verifRecClient{name: "polling"}
+	cand := &verifRecClient{name: "websocket"}
+	closedSock := 0
+	upgraded := ""
+	s := &clientSocket{
+		transport: old, upgradeTimeout: time.Second, debug: NewNoopDebugger(),
+		pingChan: make(chan struct{}, 1), closeChan: make(chan struct{}),
+	}
+	// the application's UpgradeDone handler calls back into the socket (what lifecycle handlers may do)
+	nameSeen := ""
+	s.upgradeDone = func(name string) {
+		upgraded = name
+		nameSeen = s.TransportName()
+		s.Send(&parser.Packet{Type: parser.PacketTypeMessage, Data: []byte("from-handler")})
+	}
+	s.callbacks.setMissing()
+	s.callbacks.OnClose = func(Reason, error) { closedSock++ }
+	c := transport.NewCallbacks()
+	scenario := verifChoose(0, 3)
+	verifTimers(true)
+	ok := false
+	finished := false
+	verifGo(func() {
+		ok = s.tryUpgradeTo(cand, c)
+		finished = true
+	})
+	verifSettle()
+	verifAssert(len(cand.batches) == 1 && cand.batches[0][0].Type == parser.PacketTypePing && string(cand.batches[0][0].Data) == "probe", "the candidate is probed with ping 'probe'")
+	switch scenario {
+	case 0:
+		c.OnPacket(&parser.Packet{Type: parser.PacketTypePong, Data: []byte("probe")})
+	case 1:
+		c.OnPacket(&parser.Packet{Type: parser.PacketTypePong, Data: []byte("other")})
+	case 2:
+		tb := verifAnyByte()
+		verifAssume(tb <= 6 && tb != byte(parser.PacketTypePong))
+		c.OnPacket(&parser.Packet{Type: parser.PacketType(tb)})
+	case 3: // silence: the upgrade timer fires
+	}
+	verifWaitQuiescent()
+	if verifIsNative() && scenario != 0 {
+		time.Sleep(1100 * time.Millisecond) // the real upgrade timer (1s) ends a failed attempt
+	}
+	verifAssert(finished, "the upgrade attempt terminates")
+	verifAssert(closedSock == 0, "an upgrade attempt never closes the connection")
+	verifAssert(verifHeldLocks() == 0 && verifBlocked() == 0, "no mutex is left held and nothing is blocked, also when the UpgradeDone handler uses the socket")
+	if upgraded != "" {
+		verifAssert(nameSeen == "websocket", "inside UpgradeDone the socket already reports the new transport")
+	}
+	if scenario == 0 {
+		verifAssert(ok && s.TransportName() == "websocket" && upgraded == "websocket", "a confirmed probe completes the upgrade")
+		verifAssert(len(cand.batches) == 3 && cand.batches[1][0].Type == parser.PacketTypeUpgrade, "UPGRADE is the first packet on the new transport (the UpgradeDone handler's own message follows it)")
+		verifAssert(old.discard == 1 && old.closed == 0, "the old transport is discarded, not closed")
+		s.Send(verifNumbered('5'))
+		verifAssert(len(cand.batches) == 4 && verifCountNumbered(cand.batches[3], '5') == 1, "later messages use the new transport")
+	} else {
+		verifAssert(s.TransportName() == "polling" && old.discard == 0 && old.closed == 0, "a failed upgrade leaves the original transport in place")
+		verifAssert(cand.closed >= 1, "only the candidate transport is closed")
+		s.Send(verifNumbered('5'))
+		verifAssert(len(old.batches) == 1 && verifCountNumbered(old.batches[0], '5') == 1, "the connection keeps working on its original transport")
+		if scenario == 3 {
+			verifAssert(!ok, "a timed-out attempt reports failure")
+		}
+	}
+	verifReach("end")
+}
